@@ -39,6 +39,35 @@ class Role:
 
 
 SENS, MASK, MASKC, DIM, SHAPE = Role("sens"), Role("mask"), Role("maskC"), Role("dim"), Role("shape")
+ZERO, MASKZERO = Role("zero"), Role("maskzero")      # hoisted `torch.tensor([0.0], …)` / `sampling_mask == 0`
+UPDATES = ("FR", "PRP", "DY", "BAN")
+
+
+class _Stub:
+    """stands for a tensor in index arithmetic (`x.ndim`, `x.shape`, `len(x.shape[1:])`)"""
+
+    def __init__(self, shape):
+        self.shape = tuple(shape)
+        self.ndim = len(shape)
+
+    def dim(self):
+        return self.ndim
+
+    def size(self, i=None):
+        return self.shape if i is None else self.shape[i]
+
+
+def _eval_index_expr(node: ast.AST, names: dict):
+    """value of a pure index-arithmetic expression (lists / ints built from ranks and shapes), for given stub tensors"""
+    import torch
+
+    code = compile(ast.Expression(body=node), "<c19-index>", "eval")
+    env = {"torch": torch, "len": len, "range": range, "list": list, "tuple": tuple, "int": int, "__builtins__": {}}
+    env.update(names)
+    val = eval(code, env)  # noqa: S307 - expression of the repository under check, no builtins
+    if isinstance(val, (list, tuple)):
+        return [int(v) for v in val]
+    return int(val)
 
 
 class Builder:
@@ -130,6 +159,8 @@ class Tr:
         self.info, self.b, self.env = info, b, env
         self.COIL, self.SPATIAL = coil, tuple(spatial)
         self.depth = 0
+        self.update = None            # the `bk_update_type` this translation is specialised to
+        self.branches = []            # update types tested, in source order (shared with inlined helpers)
 
     # ---- helpers
     def _kw(self, call: ast.Call, name: str, pos: int | None = None):
@@ -160,7 +191,17 @@ class Tr:
         return ast.unparse(f)
 
     def _zero_tensor(self, node: ast.AST) -> bool:
-        return ast.unparse(node).replace(" ", "").startswith("torch.tensor([0.0]")
+        if self.role_of(node) is ZERO:
+            return True
+        t = ast.unparse(node).replace(" ", "")
+        return t.startswith("torch.tensor([0.0]") or t.startswith("torch.tensor(0.0") or t.startswith("torch.zeros(1,")
+
+    def _mask_is_zero(self, test: ast.AST) -> bool:
+        """`sampling_mask == 0` (or a local holding it)"""
+        if self.role_of(test) is MASKZERO:
+            return True
+        return (isinstance(test, ast.Compare) and len(test.ops) == 1 and isinstance(test.ops[0], ast.Eq)
+                and self._is(test.left, MASK) and ast.unparse(test.comparators[0]) in ("0", "0.0", "False"))
 
     # ---- expressions
     def expr(self, node: ast.AST) -> int:
@@ -252,9 +293,7 @@ class Tr:
             return b.op(op, [x]) if dims == self.SPATIAL else b.unknown(f"{op} dim {dims}", [x])
         if name == "torch.where" and len(node.args) == 3:
             test, zero, val = node.args
-            ok = (isinstance(test, ast.Compare) and len(test.ops) == 1 and isinstance(test.ops[0], ast.Eq)
-                  and self._is(test.left, MASK) and ast.unparse(test.comparators[0]) in ("0", "0.0", "False")
-                  and self._zero_tensor(zero))
+            ok = self._mask_is_zero(test) and self._zero_tensor(zero)
             x = self.expr(val)
             return b.op("mask", [x]) if ok else b.unknown("where " + ast.unparse(test), [x])
         if name in ("T.apply_mask", "apply_mask") and len(node.args) >= 2:
@@ -275,10 +314,19 @@ class Tr:
             return b.op("dot", [a, c]) if self._is(node.args[2], DIM) else b.unknown("dot dim", [a, c])
         if name == "complex_division" and len(node.args) == 2:
             return b.op("cdiv", [self.expr(node.args[0]), self.expr(node.args[1])])
-        if name.startswith("self.") and name[5:] in _INLINE_METHODS:
-            return self.inline(self.info.method(name[5:]), node, skip_self=True)
-        if name in _INLINE_HELPERS:
-            return self.inline(find_function(self.info.tree, name), node, skip_self=False)
+        if name.startswith("self.") and (name[5:] in _INLINE_METHODS or name[5:].startswith("_")):
+            try:
+                fn = self.info.method(name[5:])
+            except Untranslatable:
+                return b.unknown(name, [])
+            static = any(ast.unparse(d).endswith("staticmethod") for d in fn.decorator_list)
+            return self.inline(fn, node, skip_self=not static)
+        if name in _INLINE_HELPERS or (name.startswith("_") and "." not in name):
+            try:
+                fn = find_function(self.info.tree, name)
+            except Untranslatable:
+                return b.unknown(name, [])
+            return self.inline(fn, node, skip_self=False)
         return b.unknown(name, [])
 
     def inline(self, fn: ast.FunctionDef, call: ast.Call, skip_self: bool) -> int:
@@ -302,6 +350,7 @@ class Tr:
             env[p_] = r if r is not None else self.expr(bound[p_])
         sub = Tr(self.info, self.b, env, self.COIL, self.SPATIAL)
         sub.depth = self.depth + 1
+        sub.update, sub.branches = self.update, self.branches
         out = sub.block(fn.body)
         if out is None:
             raise Untranslatable(f"`{fn.name}` has no return")
@@ -315,14 +364,30 @@ class Tr:
         if isinstance(st, ast.Return) and st.value is not None:
             return self.expr(st.value)
         if isinstance(st, ast.Assign) and len(st.targets) == 1 and isinstance(st.targets[0], ast.Name):
-            tgt, txt = st.targets[0].id, ast.unparse(st.value).replace(" ", "")
-            if tgt == "dim" and txt == "torch.arange(1,x.ndim-1).tolist()":
-                self.env[tgt] = DIM                                              # all but batch and complex axes
+            tgt = st.targets[0].id
+            if self._zero_tensor(st.value):
+                self.env[tgt] = ZERO
                 return None
-            if tgt == "shape" and txt == "[x.shape[0]]+[1for_inrange(len(x.shape[1:])-1)]+[2]":
-                self.env[tgt] = SHAPE
+            if self._mask_is_zero(st.value):
+                self.env[tgt] = MASKZERO
                 return None
-            self.env[tgt] = self.expr(st.value)
+            role = self._index_role(st.value)
+            if role is not None:
+                self.env[tgt] = role
+                return None
+            r = self.role_of(st.value)
+            self.env[tgt] = r if r is not None else self.expr(st.value)
+            return None
+        if isinstance(st, ast.If) and self._update_test(st.test) is not None:
+            # static dispatch on `self.bk_update_type` (if / elif / else chain or early returns): one decision tree
+            nm = self._update_test(st.test)
+            self.branches.append(nm)
+            if self.update is None:
+                raise Untranslatable("branch on bk_update_type outside a specialised translation")
+            for s_ in (st.body if nm == self.update else st.orelse):
+                r = self.stmt(s_)
+                if r is not None:
+                    return r
             return None
         if isinstance(st, ast.If):
             t = ast.unparse(st.test)
@@ -336,6 +401,35 @@ class Tr:
                 return None
             raise Untranslatable(f"`if {t}`")
         raise Untranslatable(f"statement `{ast.unparse(st)[:60]}`")
+
+    def _update_test(self, test: ast.AST):
+        if (isinstance(test, ast.Compare) and len(test.ops) == 1 and isinstance(test.ops[0], ast.Eq)
+                and ast.unparse(test.left) == "self.bk_update_type"):
+            c = test.comparators[0]
+            v = c.value if isinstance(c, ast.Constant) else (c.attr if isinstance(c, ast.Attribute) and ast.unparse(c.value) == "CGUpdateType" else None)
+            if isinstance(v, str) and v.upper() in UPDATES:
+                return v.upper()
+        return None
+
+    def _index_role(self, node: ast.AST):
+        """DIM (all axes but batch and complex) / SHAPE ([N, 1, …, 1, 2]) when the expression is index arithmetic on the
+        rank / shape of a tensor parameter that evaluates to exactly that for ranks 3..6 — however it is spelled"""
+        names = {n.id for n in ast.walk(node) if isinstance(n, ast.Name)} - {"torch", "len", "range", "list", "tuple", "int", "_"}
+        tens = [n for n in names if isinstance(self.env.get(n), (int, tuple)) and not isinstance(self.env.get(n), Role)]
+        if len(tens) != 1 or names - set(tens) - {g.target.id for c in ast.walk(node) if isinstance(c, (ast.ListComp, ast.GeneratorExp))
+                                                      for g in c.generators if isinstance(g.target, ast.Name)}:
+            return None
+        if not any(isinstance(n, ast.Attribute) and n.attr in ("ndim", "shape", "dim", "size") for n in ast.walk(node)):
+            return None
+        try:
+            vals = [(_eval_index_expr(node, {tens[0]: _Stub([7] + [3] * (r - 2) + [2])}), r) for r in (3, 4, 5, 6)]
+        except Exception:  # noqa: BLE001 - not index arithmetic
+            return None
+        if all(v == list(range(1, r - 1)) for v, r in vals):
+            return DIM
+        if all(v == [7] + [1] * (r - 2) + [2] for v, r in vals):
+            return SHAPE
+        return None
 
     def block(self, stmts) -> int | None:
         for st in stmts:
@@ -375,18 +469,21 @@ def loglik_plan():
     env = {ps[0]: ("param", 0), ps[1]: ("param", 1), ps[2]: SENS, ps[3]: MASK, ps[4]: ("param", 2)}
     tr = Tr(info, b, env)
     body = list(fn.body)
-    # default handling of `loglikelihood_scaling`: `if s is not None: s = s else: s = torch.tensor([1.0], …)`
+    # default handling of `loglikelihood_scaling`: `if s is None: s = torch.tensor([1.0], …)` in either polarity, the
+    # not-None branch empty or a self-assignment
     default_one = False
     rest = []
     for st in body:
         if (isinstance(st, ast.If) and isinstance(st.test, ast.Compare) and isinstance(st.test.left, ast.Name)
-                and st.test.left.id == ps[4] and isinstance(st.test.ops[0], ast.IsNot)):
-            ok_body = all(isinstance(s, ast.Assign) and ast.unparse(s.targets[0]) == ps[4]
-                          and ast.unparse(s.value) == ps[4] for s in st.body)
-            ok_else = (len(st.orelse) == 1 and isinstance(st.orelse[0], ast.Assign)
-                       and ast.unparse(st.orelse[0].targets[0]) == ps[4]
-                       and ast.unparse(st.orelse[0].value).replace(" ", "").startswith("torch.tensor([1.0]"))
-            if not (ok_body and ok_else):
+                and st.test.left.id == ps[4] and len(st.test.ops) == 1 and isinstance(st.test.ops[0], (ast.IsNot, ast.Is))
+                and ast.unparse(st.test.comparators[0]) == "None"):
+            none_branch, given_branch = (st.body, st.orelse) if isinstance(st.test.ops[0], ast.Is) else (st.orelse, st.body)
+            ok_given = all(isinstance(s, ast.Pass) or (isinstance(s, ast.Assign) and ast.unparse(s.targets[0]) == ps[4]
+                                                       and ast.unparse(s.value) == ps[4]) for s in given_branch)
+            ok_none = (len(none_branch) == 1 and isinstance(none_branch[0], ast.Assign)
+                       and ast.unparse(none_branch[0].targets[0]) == ps[4]
+                       and ast.unparse(none_branch[0].value).replace(" ", "").startswith(("torch.tensor([1.0]", "torch.ones(1")))
+            if not (ok_given and ok_none):
                 raise Untranslatable("unexpected default handling of loglikelihood_scaling")
             default_one = True
             continue
@@ -394,12 +491,25 @@ def loglik_plan():
     out = tr.block(rest)
     if out is None:
         raise Untranslatable("forward has no return")
-    # the scaling is reshaped to (-1, 1, 1, 1, 1): per-sample values go on the BATCH axis (the plan treats reshape as layout)
-    want = f"{ps[4]}={ps[4]}.reshape(-1,*torch.ones(len({ps[2]}.shape)-1).int())"
-    reshapes = [ast.unparse(st).replace(" ", "") for st in rest
-                if isinstance(st, ast.Assign) and ast.unparse(st.targets[0]) == ps[4] and ".reshape(" in ast.unparse(st.value)]
+    # the scaling is reshaped to (-1, 1, 1, 1, 1): per-sample values go on the BATCH axis (the plan treats reshape as layout).
+    # Decided by EVALUATING the reshape arguments for maps of rank 5 and 6, however the tuple of ones is spelled.
     global _SCALING_BATCH_FIRST
-    _SCALING_BATCH_FIRST = reshapes == [want]
+    _SCALING_BATCH_FIRST = True
+    aliases = {ps[4]}
+    for n in ast.walk(fn):
+        if isinstance(n, ast.Assign) and len(n.targets) == 1 and isinstance(n.targets[0], ast.Name):
+            v = n.value
+            if isinstance(v, ast.Call) and isinstance(v.func, ast.Attribute) and v.func.attr == "reshape" and \
+                    isinstance(v.func.value, ast.Name) and v.func.value.id in aliases:
+                aliases.add(n.targets[0].id)
+                try:
+                    for rank in (5, 6):
+                        tup = ast.Tuple(elts=list(v.args), ctx=ast.Load())
+                        got = _eval_index_expr(ast.fix_missing_locations(tup), {ps[2]: _Stub([3] * rank)})
+                        if got != [-1] + [1] * (rank - 1):
+                            _SCALING_BATCH_FIRST = False
+                except Exception:  # noqa: BLE001 - not understood: no verdict
+                    pass
     return b.nodes, [out], default_one
 
 
@@ -459,40 +569,38 @@ def cg_plans():
                ps[2]: SENS, ps[3]: MASK, ps[4]: ("param", 4), "dim": DIM, "shape": SHAPE}
         return b, Tr(info, b, env)
 
+    def _break_test(tr, test):
+        """(is `<rr>.abs().sqrt().mean() < self.tol`, node of <rr>) — `torch.mean(…)` / `torch.sqrt(…)` spellings included"""
+        if not (isinstance(test, ast.Compare) and len(test.ops) == 1 and isinstance(test.ops[0], ast.Lt)
+                and ast.unparse(test.comparators[0]) == "self.tol"):
+            return False, None
+        chain, cur = [], test.left
+        while True:
+            if isinstance(cur, ast.Call) and isinstance(cur.func, ast.Attribute) and not cur.args and not cur.keywords \
+                    and not (isinstance(cur.func.value, ast.Name) and cur.func.value.id == "torch"):
+                chain.append(cur.func.attr)
+                cur = cur.func.value
+            elif isinstance(cur, ast.Call) and isinstance(cur.func, ast.Attribute) and isinstance(cur.func.value, ast.Name) \
+                    and cur.func.value.id == "torch" and len(cur.args) == 1 and not cur.keywords:
+                chain.append(cur.func.attr)
+                cur = cur.args[0]
+            else:
+                break
+        if chain != ["mean", "sqrt", "abs"] or not isinstance(cur, ast.Name) or cur.id not in tr.env:
+            return False, None
+        v = tr.env[cur.id]
+        return True, (tr.b.param(v[1]) if isinstance(v, tuple) else v)
+
     def run(update: str):
         b, tr = fresh()
-        break_after, break_ok, branches = None, False, []
+        tr.update = update
+        break_after, break_ok, break_node = None, False, None
         x_assigned_at = None
         for i, st in enumerate(loop.body):
             if isinstance(st, ast.If) and len(st.body) == 1 and isinstance(st.body[0], ast.Break):
                 break_after = i
-                break_ok = (ast.unparse(st.test).replace(" ", "") == "rk_norm_sq_new.abs().sqrt().mean()<self.tol"
-                            and not st.orelse)
-                continue
-            if isinstance(st, ast.If) and "bk_update_type" in ast.unparse(st.test):
-                cur, chosen = st, None
-                while True:
-                    t = cur.test
-                    if not (isinstance(t, ast.Compare) and ast.unparse(t.left) == "self.bk_update_type"
-                            and isinstance(t.ops[0], ast.Eq) and isinstance(t.comparators[0], ast.Constant)
-                            and str(t.comparators[0].value).upper() in _UPD):
-                        raise Untranslatable(f"cg: branch test `{ast.unparse(t)}`")
-                    nm = str(t.comparators[0].value).upper()
-                    branches.append(nm)
-                    if nm == update and chosen is None:
-                        chosen = cur.body
-                    if len(cur.orelse) == 1 and isinstance(cur.orelse[0], ast.If):
-                        cur = cur.orelse[0]
-                        continue
-                    rest = [u for u in _UPD if u not in branches]
-                    if len(rest) != 1:
-                        raise Untranslatable("cg: the final else does not stand for exactly one update type")
-                    branches.append(rest[0])
-                    if chosen is None:
-                        chosen = cur.orelse
-                    break
-                if tr.block(chosen) is not None:
-                    raise Untranslatable("cg: return inside the branch")
+                ok, break_node = _break_test(tr, st.test)
+                break_ok = ok and not st.orelse
                 continue
             if isinstance(st, ast.Assign) and ast.unparse(st.targets[0]) == carried[0] and x_assigned_at is None:
                 x_assigned_at = i
@@ -502,9 +610,18 @@ def cg_plans():
         for nm in carried:
             v = tr.env[nm]
             outs.append(b.param(v[1]) if isinstance(v, tuple) else v)
+        # the test looks at the NEW squared residual norm: the value carried to the next pass as `rk_norm_sq_old`
+        break_ok = bool(break_ok and break_node is not None and break_node == outs[3])
+        tested = list(tr.branches)
+        rest = [u for u in UPDATES if u not in tested]
+        branches = tested + rest if len(rest) == 1 and len(set(tested)) == len(tested) else tested
         exits = sum(1 for n in ast.walk(loop) if isinstance(n, (ast.Break, ast.Continue, ast.Return, ast.Raise)))
         nloops = sum(1 for n in ast.walk(fn) if isinstance(n, (ast.For, ast.While, ast.AsyncFor)))
-        shape = (range_ok, break_after if break_after is not None else -1, break_ok,
+        # statements before the break that matter: x is updated before the test
+        before = sorted({carried.index(ast.unparse(t)) for st_ in loop.body[:break_after if break_after is not None else 0]
+                         for n_ in ast.walk(st_) if isinstance(n_, (ast.Assign, ast.AugAssign))
+                         for t in (n_.targets if isinstance(n_, ast.Assign) else [n_.target]) if ast.unparse(t) in carried})
+        shape = (range_ok, before if break_after is not None else [99], break_ok,
                  bool(returns_x and x_assigned_at is not None and break_after is not None and x_assigned_at < break_after),
                  branches, exits, nloops)
         return b.nodes, outs, shape
@@ -558,11 +675,13 @@ def _c19_extra():
                    f"def cg_body_plan : Update → Plan\n{arms}\n")
         shapes = {u: s for u, (_, _, s) in bodies.items()}
         s0 = shapes["FR"]
-        if any(s != s0 for s in shapes.values()):
+        if any(s[:4] + s[5:] != s0[:4] + s0[5:] for s in shapes.values()):
             raise Untranslatable("cg: control skeleton differs between branches")
-        rng, brk, brk_ok, ret, branches, exits, nloops = s0
+        # the dispatch order: the specialisation that falls through every test sees all of them (early returns included)
+        branches = max((s[4] for s in shapes.values()), key=len)
+        rng, brk, brk_ok, ret, _, exits, nloops = s0
         out.append("/-- control skeleton of `ConjGrad.cg` -/\ndef cg_loop_shape : LoopShape :=\n"
-                   f"  {{ rangeNumIters := {'true' if rng else 'false'}, breakAfter := {max(brk, 0) if brk >= 0 else 999}, "
+                   f"  {{ rangeNumIters := {'true' if rng else 'false'}, carriedBeforeBreak := [{', '.join(map(str, brk))}], "
                    f"breakTestOnRrNew := {'true' if brk_ok else 'false'}, returnsX := {'true' if ret else 'false'}, "
                    f"branches := [{', '.join('.' + x for x in branches)}], exits := {exits}, loops := {nloops} }}\n")
         status["cg_init_plan"] = status["cg_body_plan"] = status["cg_loop_shape"] = "translated"
